@@ -170,8 +170,8 @@ def check_dispatch(ctx, table):
     with_line = set()
     for c in I.core_instructions(repo):
         if repo.lookup(c, "line") is not None:
-            # the most general class defining `line`
-            with_line.add(repo.lookup(c, "line")[0].name)
+            # every instruction class that has a `line` target (wherever in its bases the property is defined - a mixin included)
+            with_line.add(c.name)
     ctx.check("C04.H", "branch-arm:covers-every-class-with-a-line-target", with_line <= branch_classes | {c.name for cl, h in arms if h == "_handle_branch_instr" for k in cl for c in repo.subclasses(k)},
               f"classes with a jump target {sorted(with_line)} vs classes dispatched to _handle_branch_instr {sorted(branch_classes)}", ex.loc())
 
